@@ -331,3 +331,23 @@ def checksum_twins(ctx, repo):
     txt = norm(c.node)
     ok = "offset = sfntDirectorySize + sfntDirectoryEntrySize * len(self.tables)" in txt and "offset += entry.origLength + 3 & ~3" in txt and "calcChecksum(data[:8] + b'\\x00\\x00\\x00\\x00' + data[12:])" in txt
     ctx.ob("F22-hv", c.where, "original sfnt offsets: directory size + padded table lengths; head checksum with zeroed adjustment", ok)
+
+
+def woff2_close_order(ctx, repo):
+    ctx.rule("W2-order", "WOFF2Writer.close performs its steps in dependency order: glyf/loca normalisation (which updates head.indexToLocFormat) before head is recompiled, both before the tables are sorted and checksummed, checksums before the transform, count check first", floor=5)
+    f = repo.mod("ttLib/woff2.py").func("WOFF2Writer.close")
+    g = CFG(f.node)
+    steps = ["_normaliseGlyfAndLoca", "_setHeadTransformFlag", "_calcSFNTChecksumsLengthsAndOffsets", "_transformTables", "_calcTotalSize", "_packTableDirectory"]
+    pos = {}
+    for c in calls_in(f.node, nested=False):
+        if last_attr(c) in steps:
+            pos.setdefault(last_attr(c), []).append(g.id_of(c))
+    for a, b in zip(steps, steps[1:]):
+        ok = a in pos and b in pos and all(not g.reachable(y, x) or x == y for x in pos[a] for y in pos[b]) and all(g.reachable(x, y) for x in pos[a] for y in pos[b])
+        ctx.ob("W2-order", f.where, f"{a} precedes {b}", ok, "" if ok else f"{b} can run before {a}: it would see stale data (e.g. head frozen before loca fixes indexToLocFormat)")
+    srt = [n for n in walk_no_nested(f.node) if isinstance(n, ast.Assign) and norm(n.targets[0]) == "self.tables" and "sorted(self.tables.items())" in norm(n.value)]
+    ok = len(srt) == 1 and "_calcSFNTChecksumsLengthsAndOffsets" in pos and all(g.dominates(g.id_of(srt[0]), y) for y in pos["_calcSFNTChecksumsLengthsAndOffsets"])
+    ctx.ob("W2-order", f.where, "tables sorted by tag before offsets/checksums are computed", ok)
+    chk = [n for n in walk_no_nested(f.node) if isinstance(n, ast.If) and "len(self.tables) != self.numTables" in norm(n.test)]
+    ok = bool(chk) and all(g.dominates(g.id_of(chk[0]), y) for ys in pos.values() for y in ys)
+    ctx.ob("W2-order", f.where, "table-count check dominates every step", ok)
